@@ -29,7 +29,9 @@ def norm_path(place):
                 out.append(("f", nm))
         elif k == "downcast":
             out.append(("v", e.get("variant") or str(e["vi"])))
-        elif k in ("index", "constindex", "subslice"):
+        elif k == "constindex":
+            out.append(("[]", "c", e["offset"], bool(e["from_end"])))
+        elif k in ("index", "subslice"):
             out.append(("[]",))
         # deref / opaquecast dropped
     return tuple(out)
@@ -46,6 +48,8 @@ def path_str(p):
             s += " as " + str(e[1])
         elif e[0] == "[]" and len(e) == 2:
             s += "[%s]" % (_range_str(e[1]),)
+        elif e[0] == "[]" and len(e) == 4:
+            s += "[%s%d]" % ("-" if e[3] else "", e[2])
         else:
             s += e[0]
     return s
@@ -215,7 +219,11 @@ class Cfg:
                                 blocks.add(p)
                                 st.append(p)
                     out.append((v, blocks))
-        return out
+        # natural loops sharing a header (several back edges, e.g. `continue`) are one loop
+        merged = {}
+        for h, bl in out:
+            merged.setdefault(h, set()).update(bl)
+        return sorted(merged.items())
 
 
 # ----------------------------------------------------------------- origins
